@@ -65,7 +65,9 @@ func loadEvents(filename string) (map[string]*eventsListType, error) {
 	minCreateTime := uint64(time.Now().Add(-durationMonth).Unix())
 	for username, eventsSlice := range events {
 		eventsList := &eventsListType{}
-		for _, savedEvent := range eventsSlice {
+		// Events are saved newest first, the list is built oldest first.
+		for index := len(eventsSlice) - 1; index >= 0; index-- {
+			savedEvent := eventsSlice[index]
 			if savedEvent.CreateTime < minCreateTime {
 				continue
 			}
